@@ -28,6 +28,9 @@ SUFFIX = "_rev"
 def cases(draw):
     bn = draw(st.integers(0, 3)) == 0
     g = draw(gg.general(bnodes=bn, inst_props=(RDF_TYPE, RDF_TYPE, RDF_TYPE, "http://ex.org/isA"), iri_like_literals=draw(st.integers(0, 3)) == 0, quirks=draw(gg.quirk_set(one_in=4))))
+    if draw(st.integers(0, 7)) == 0:
+        g = draw(gg.fan_graph())
+        bn = any(t[0][0] == "bnode" for t in g["triples"])
     cfg = draw(gg.switches(extra=("disable_exact_cardinality",)))
     cfg["instances_report_mode"] = "mixed"
     if draw(st.integers(0, 3)) == 0:
